@@ -217,11 +217,12 @@ check('C13',
       'by field and by power-flow solution; generated networks written by independent RAW v33 / MATPOWER writers (CW 1-3, '
       'CZ 1-2, line shunts, non-100 MVA bases, several loads per bus, offline devices, string idx) and loaded by ANDES vs '
       'the natively added system and the independent nodal-balance oracle; system2mpc->mpc2system; stock .raw/.m files vs '
-      'an independent reading of the same text',
+      'an independent reading of the same text; stock raw+dyr pairs and generated dyr files (independent DYR writer/reader '
+      'with 18 record layouts typed in from the PSS/E data sheets) vs the devices ANDES creates, parameter by parameter',
       'Round-trip and differential testing across formats with independent writers/readers.',
       'Trusted: vf/oracle/rawio.py (writers/readers typed from the format descriptions), vf/oracle/pf.py. RAW subset: '
-      'winding 2 at nominal ratio, no magnetising admittance; DYR records are not covered by an independent reader '
-      '(only through round trips of cases that were loaded from raw+dyr).',
+      'winding 2 at nominal ratio, no magnetising admittance; DYR: the 18 record layouts of vf/oracle/dyrio.py '
+      '(other PSS/E models are counted, not judged).',
       'DESIGN.md 7 C13')
 
 check('C17',
